@@ -303,6 +303,25 @@ func TestC12(t *testing.T) {
 		}
 	}
 	if f := hx.Replaying(); f != "" {
+		var nest struct {
+			Depths     []int `json:"nest_depths"`
+			Goroutines int   `json:"goroutines"`
+		}
+		if b, err := os.ReadFile(f); err == nil && json.Unmarshal(b, &nest) == nil && len(nest.Depths) > 0 {
+			for i := 0; i < 5; i++ {
+				var problems []string
+				done := make(chan struct{})
+				go c12NestRound(nest.Depths, nest.Goroutines, &problems, done)
+				if stuck := awaitOrStuck(done, "conc.c12NestRound"); stuck != "" {
+					fmt.Printf("REPLAY-FAIL deadlock: %s\n", hx.Trunc(stuck, 1500))
+					os.Exit(1)
+				}
+				if len(problems) > 0 {
+					t.Fatalf("REPLAY-FAIL %s", problems[0])
+				}
+			}
+			return
+		}
 		var c c12Case
 		if err := hx.LoadCase(f, &c); err != nil {
 			t.Fatalf("load %s: %v", f, err)
@@ -322,6 +341,22 @@ func TestC12(t *testing.T) {
 			t.Fatalf("C12 violated: %s", run.ReportFailure(map[string]interface{}{"requests": reqs, "goroutines": n}, []hx.Discrepancy{{Kind: "not-isolated", Detail: p}}))
 		}
 		run.Case(hx.Hash(map[string]interface{}{"r": reqs, "n": n}), true, "input-objects-bound-to-go-types")
+		// ... and by one of the nested-request scenario
+		depths := rapid.SliceOfN(rapid.IntRange(0, 3), 1, 3).Draw(rt, "nestDepths")
+		ng := rapid.SampledFrom([]int{1, 2, 4, 8}).Draw(rt, "nestGoroutines")
+		var problems []string
+		nestDone := make(chan struct{})
+		go c12NestRound(depths, ng, &problems, nestDone)
+		nestCase := map[string]interface{}{"nest_depths": depths, "goroutines": ng}
+		if stuck := awaitOrStuck(nestDone, "conc.c12NestRound"); stuck != "" {
+			run.Case(hx.Hash(nestCase), true, "deadlock")
+			fmt.Printf("--- FAIL: C12 violated: %s\n", run.ReportFailure(nestCase, []hx.Discrepancy{{Kind: "deadlock", Detail: "a Go method that asks its own root for the same field: " + stuck}}))
+			os.Exit(1)
+		}
+		run.Case(hx.Hash(nestCase), ng > 1, "method-issuing-a-request-on-its-own-root")
+		for _, p := range problems {
+			t.Fatalf("C12 violated: %s", run.ReportFailure(nestCase, []hx.Discrepancy{{Kind: "not-isolated", Detail: p}}))
+		}
 	})
 }
 
@@ -469,6 +504,83 @@ func c12InputRound(reqs []string, n int) (problems []string) {
 		}
 	}
 	return nil
+}
+
+// ---- third scenario: a Go method that itself asks the root (a request within a request) ------------
+
+type c12NestQuery struct {
+	root **ggql.Root
+}
+
+// Nest answers by asking the same root for the same field one level down.
+func (q *c12NestQuery) Nest(n int32) string {
+	if n <= 0 {
+		return "leaf"
+	}
+	res := (*q.root).ResolveString(fmt.Sprintf("{nest(n: %d)}", n-1), "", nil)
+	return fmt.Sprintf("%d>%s", n, hx.Show(hx.Norm(res)))
+}
+
+// Twice has nothing to do with Nest (a plain method next to it).
+func (q *c12NestQuery) Twice(n int32) int32 { return 2 * n }
+
+type c12NestSchema struct {
+	Query *c12NestQuery
+}
+
+func newC12NestRoot() (*ggql.Root, error) {
+	var root *ggql.Root
+	q := &c12NestQuery{root: &root}
+	root = ggql.NewRoot(&c12NestSchema{Query: q})
+	return root, root.ParseString("type Query { nest(n: Int!): String twice(n: Int!): Int }")
+}
+
+// c12NestRound: goroutines ask for nest(n) and twice(n) on one cold root; every answer is the one a
+// root of its own gives. done is closed when all goroutines are through.
+func c12NestRound(depths []int, n int, problems *[]string, done chan struct{}) {
+	defer close(done)
+	ggql.Sort = true
+	reqs := make([]string, len(depths))
+	want := make([]string, len(depths))
+	for i, d := range depths {
+		reqs[i] = fmt.Sprintf("{nest(n: %d) twice(n: %d)}", d, d)
+		root, err := newC12NestRoot()
+		if err != nil {
+			*problems = []string{"setup: " + err.Error()}
+			return
+		}
+		want[i] = hx.Show(hx.Norm(root.ResolveString(reqs[i], "", nil)))
+	}
+	root, err := newC12NestRoot()
+	if err != nil {
+		*problems = []string{"setup: " + err.Error()}
+		return
+	}
+	got := make([][]string, n)
+	var wg sync.WaitGroup
+	start := make(chan struct{})
+	for g := 0; g < n; g++ {
+		wg.Add(1)
+		go func(g int) {
+			defer wg.Done()
+			got[g] = make([]string, len(reqs))
+			<-start
+			for k := range reqs {
+				i := (k + g) % len(reqs)
+				got[g][i] = hx.Show(hx.Norm(root.ResolveString(reqs[i], "", nil)))
+			}
+		}(g)
+	}
+	close(start)
+	wg.Wait()
+	for g := range got {
+		for i := range reqs {
+			if got[g][i] != want[i] {
+				*problems = []string{fmt.Sprintf("request %s answered differently under concurrency (%d goroutines, a method that asks the root itself):\n  alone:      %s\n  concurrent: %s", reqs[i], n, want[i], got[g][i])}
+				return
+			}
+		}
+	}
 }
 
 // awaitOrStuck waits for done. The clock only decides when to look: a deadlock is reported from the
